@@ -15,22 +15,14 @@ HARNESSES = [dict(name="session", pkg="./pkg/session/", test="TestVerifC17", fil
              dict(name="pppoe", pkg="./internal/pppoe/", test="TestVerifC17Callers", timeout=600,
                   files=[("internal/pppoe/zz_verif_c17_test.go", "harness/C17/zz_verif_c17_pppoe_test.go")])]
 MODEL_NEEDS_IMPL = True
-# Model variants: "repaired" = every recorded repair; "halfopen_unclaimed" = /repo HEAD's ipoe restore path, which puts a session that
-# was checkpointed half-established back into the session tables without claiming its tuple (only ripoe cases depend on it).
-# The findings fixed in /repo (94649ad, c1f4ba1, 49433a1) are part of every variant: a regression there is a VIOLATION.
-VARIANTS = ["repaired", "halfopen_unclaimed"]
-
-
-def signature(case, impl, models):
-    if case.startswith("ripoe") and impl == models.get("halfopen_unclaimed"):
-        return "ipoe-restored-halfopen-session-without-claim"
-    return None
+# No model variants: every recorded C17 finding is fixed in /repo (94649ad, c1f4ba1, 49433a1, d2827a3); the model is what HEAD does and a
+# regression to any of them is a VIOLATION.
 RULE = ("seq: random sequential histories (1..40 ops) of Claim/Release/IsOwner/Lookup by 2..5 sessions of both protocols "
         "(plus rare foreign protocol strings, empty session ids, Owner.Key different from the claimed key) over 1..4 tuples "
         "drawn from a pool with colliding and non-colliding shard hashes, same MAC on different C-VLANs, VLAN 0/65535; "
         "interleaved with stored-tuple-count (every stored tuple must sit in the shard shardFor names) and MakeTupleKey (MAC "
-        "length 0..8) observations, compared exactly, and shard-index observations, accepted when in 0..15 and the same "
-        "for the same tuple (the hash itself is an implementation choice; agreement with the modelled hash is only counted). "
+        "length 0..8) observations, compared exactly, and shard observations (shards numbered in first-seen order), accepted when in 0..15 and the "
+        "same for the same tuple (the hash itself is an implementation choice). "
         "conc/rconc: 2..8 goroutines x 2..14 ops on 1..3 tuples run against the real Registry (rconc under -race), half of "
         "them with a disturber that makes the workers queue behind the shard mutex; the recorded invocation/response "
         "history plus quiescent final reads is searched for a linearization against the extracted model. Non-trivial: "
@@ -253,6 +245,17 @@ def gen_cases(rng, tier, budget):
             cases.append(gen_callers(rng, who))
     for _ in range(nseq):
         cases.append(gen_seq(rng))
+    # first use of a fresh registry / shard by several goroutines at once (no disturber: it would touch the shards first);
+    # x<n> repeats the scenario on n fresh registries
+    for i in range(12 if quick else 120):
+        k = rng.choice(POOL)
+        nt = rng.randint(2, 8)
+        progs = ["1 c %s %s %s %s" % (k, hx(PROTOS[t % 2]), hx("f%d" % t), k) for t in range(nt)]
+        cases.append("conc d0y0x40 %d %s fin 1 l %s" % (nt, " ".join(progs), k))
+        k2 = rng.choice(POOL)
+        progs = ["2 c %s %s %s %s l %s" % (k if t % 2 else k2, hx(PROTOS[t % 2]), hx("g%d" % t), k if t % 2 else k2, k if t % 2 else k2)
+                 for t in range(nt)]
+        cases.append("conc d0y0x25 %d %s fin 2 l %s l %s" % (nt, " ".join(progs), k, k2))
     for _ in range(nconc):
         cases.append(gen_conc(rng, tier))
     for _ in range(nrace):
@@ -528,7 +531,7 @@ def distribution(cases, impl):
          "eviction_events": 0, "ops": 0, "claim": 0, "release": 0, "isowner": 0, "lookup": 0,
          "shard_obs": 0, "count_obs": 0, "makekey": 0, "alias_reread": 0, "alias_scribble": 0, "displaced_reported": 0, "claims_nil": 0,
          "conc_ops": 0, "conc_with_overlap": 0, "overlapping_same_tuple_pairs": 0, "overlapping_claim_claim_pairs": 0, "overlapping_claim_release_pairs": 0, "max_threads": 0,
-         "isowner_true": 0, "lookup_nil": 0, "shard_obs_equal_to_modelled_hash": 0, "hang": 0}
+         "isowner_true": 0, "lookup_nil": 0, "hang": 0}
     names = {"c": "claim", "r": "release", "i": "isowner", "l": "lookup", "s": "shard_obs", "n": "count_obs", "m": "makekey",
              "v": "alias_reread", "w": "alias_scribble"}
     for c, o in zip(cases, impl):
@@ -592,6 +595,5 @@ def distribution(cases, impl):
                 d["isowner_true"] += 1
             if op[0] == "l" and r == "nil":
                 d["lookup_nil"] += 1
-            if op[0] == "s" and r == "s%d" % shard_of(op[1]):
-                d["shard_obs_equal_to_modelled_hash"] += 1
+
     return d
